@@ -94,6 +94,8 @@ def vector_groups():
                   'at: aborts iff i >= size, else address of element i inside the allocation', covers=['end', 'abort'])
                 g('clear', ['C09', 'C15'], 'h_clear', 'cstl_vector_clear',
                   'clear: destructor once per element, storage freed, empty vector')
+    G.append(Group('vector.swap', ['C09'], 'P', S, 'h_swap', enforce='cstl_vector_swap', sources=src, defines=['-DVF_G_swap'], replay=True,
+                   what='swap exchanges storage, size, capacity and the element description (element size, constructor, destructor, private pointer) together, for any field values'))
     return G
 
 
